@@ -74,6 +74,17 @@ def idle_family(rng, ident, v):
     return scn.line("scn", ident, s, extra="nt=1 family=idle-transport-%d expect=8:eof,9:eof" % v)
 
 
+def crowded_family(rng, ident, n):
+    """n requests are being served at once (handlers that run until released) and one call of ours is outstanding when the
+    peer leaves: the receive loop notices, the transport stops, everybody is released"""
+    s = [scn.call(1)]
+    for i in range(n):
+        s.append("feednowait/" + (scn.feed_call(1000 + i, 2000 + i) if rng.chance(2, 3) else scn.feed_notify(2000 + i))[5:])
+    s += ["waithandlers/%d" % n, "settle", "readerr/%s" % rng.choice(["eof", "op"]), "waitdone", "settle", "finishall", "await/c1", "settle",
+          scn.call(8, nowait=True), "await/c8"]
+    return scn.line("scn", ident, s, extra="nt=1 family=crowded-then-peer-leaves expect=1:eof,8:eof")
+
+
 def write_fail_family(rng, ident, after):
     s = ["writefail/%d" % after, scn.call(1, nowait=True), scn.notify(2, nowait=True), scn.call(3, nowait=True), "settle",
          scn.cancel(1), scn.cancel(3), "await/n2", "close", scn.call(8, nowait=True), "await/c8"]
@@ -124,6 +135,8 @@ def explore(ctx):
                 lines.append(read_fault_family(rng, "r%d" % n, kind)); n += 1
         for v in range(5):
             lines.append(idle_family(rng, "i%d" % n, v)); n += 1
+        for nn in {"quick": [140], "thorough": [70, 140, 300, 600], "search": [140, 300]}[tier]:
+            lines.append(crowded_family(rng, "m%d" % n, nn)); n += 1
         for after in range(0, {"quick": 30, "thorough": 60, "search": 40}[tier], 1 if tier != "quick" else 2):
             lines.append(write_fail_family(rng, "w%d" % n, after)); n += 1
         for _ in range({"quick": 120, "thorough": 2500, "search": 400}[tier]):
